@@ -17,7 +17,7 @@ Not decided: bit-for-bit floating-point equality (BLAS).
 """
 import ast
 from ..model import AnalysisError, walk_no_nested, norm, dotted, parent, enclosing_stmt
-from ..cache import find_memo_sites, hazards
+from ..cache import find_memo_sites, hazards, inplace_on_cached
 from ..rules import (assigns_to_attr, first_touch_is_plain_assign, forbidden_effects,
                      describe_path, loops_in, calls_in)
 from ..resolve import atoms, is_kind
@@ -73,6 +73,11 @@ def run_cache_rule(ctx, ck, only=None, rule='R-CACHE.owner-only'):
               'cached value depends on %s (not owner %s, not a key %s)' % (bad, s.owner, sorted(s.keys))
               if bad else '%s cache of %s depends only on owner/key' % (s.kind, s.owner))
         n += 1
+        mut = inplace_on_cached(ctx, s)
+        if mut or s.kind in ('attr-none', 'dict-key', 'getattr-none'):
+            ck.ob('R-CACHE.no-inplace', k2, not mut, s.func.loc(mut[0] if mut else s.store),
+                  'a local bound to the cached value is updated in place (%s): the cache is corrupted for '
+                  'the next request' % norm(mut[0])[:50] if mut else 'cached value is not updated in place')
     return sites, n
 
 
@@ -245,6 +250,7 @@ def run(ctx, ck):
     prog = ctx.program
     m = ctx.model
     ck.rule('R-CACHE.owner-only', 'cached value depends only on owner, constants and key')
+    ck.rule('R-CACHE.no-inplace', 'locals aliasing a cached value are never updated in place')
     ck.rule('R-CACHE.geometry-only', 'geometry caches have no volatile solver state in their closure')
     ck.rule('R-FRESH.assign-before-update', 'result attribute plainly assigned before in-place update')
     ck.rule('R-FRESH.solve-order', 'compute(): fill -> loads -> rhs -> solve -> power; loads added once')
